@@ -16,6 +16,10 @@
 (*     it lives in)                                                        *)
 (*   - all instances are multiplied and all copies are summed out.         *)
 (* Variables and plates that are not eliminated stay free inputs.          *)
+(* A plate scale s acts as an exponent of the plate's product; for an      *)
+(* integer s that is the same as replicating the plate s times, which is   *)
+(* how the oracle expresses it: an eliminated plate of size n and scale s  *)
+(* is unrolled over n*s instances, instance r reading the data at r mod n. *)
 (*                                                                         *)
 (* TLC enumerates every graph within the bounds and every eliminate set,   *)
 (* and emits the problem together with the projection of the oracle; the   *)
@@ -30,6 +34,7 @@ CONSTANTS
   PlateNames,   \* sequence of plate names
   VarSize, PlateSize,
   MaxFactors,
+  Scales,       \* set of plate scales to explore, e.g. {1} or {1, 2}
   Plus, Times,  \* the semiring (op names)
   LeafKind,     \* "lin" | "log" | "nonneg" | "bool"
   Tag
@@ -87,26 +92,28 @@ CopyName(p, v, asg) ==
   IN v \o sfx(1)
 
 \* all assignments of a sequence of plate names to indices, as a sequence of functions
-RECURSIVE PlateAsgs(_)
-PlateAsgs(ps) ==
+RECURSIVE PlateAsgs(_, _)
+\* assignments of the plate names ps to instance numbers 0 .. PlateSize * scale - 1
+PlateAsgs(p, ps) ==
   IF ps = <<>> THEN << [x \in {} |-> 0] >>
-  ELSE LET rest == PlateAsgs(Tail(ps)) IN
-       [k \in 1..(PlateSize * Len(rest)) |->
-          LET i == (k - 1) \div Len(rest)  r == rest[((k - 1) % Len(rest)) + 1]
-          IN [x \in DOMAIN r \cup {Head(ps)} |-> IF x = Head(ps) THEN i ELSE r[x]]]
+  ELSE LET rest == PlateAsgs(p, Tail(ps))
+           n == PlateSize * p.sc[Head(ps)]
+       IN [k \in 1..(n * Len(rest)) |->
+             LET i == (k - 1) \div Len(rest)  r == rest[((k - 1) % Len(rest)) + 1]
+             IN [x \in DOMAIN r \cup {Head(ps)} |-> IF x = Head(ps) THEN i ELSE r[x]]]
 
 Instance(p, k, asg) ==
   LET f == p.fs[k]
       eps == Pick(PlateNames, f.ps \cap ElimPlates(p))
       svs == Pick(VarNames, f.vs \cap SumVars(p))
-      subs == [j \in 1..Len(eps) |-> <<eps[j], [c |-> "Num", v |-> RInt(asg[eps[j]]), dt |-> PlateSize]>>]
+      subs == [j \in 1..Len(eps) |-> <<eps[j], [c |-> "Num", v |-> RInt(asg[eps[j]] % PlateSize), dt |-> PlateSize]>>]
               \o [j \in 1..Len(svs) |->
                     <<svs[j], [c |-> "Var", name |-> CopyName(p, svs[j], asg), dom |-> BintD(VarSize)]>>]
   IN IF subs = <<>> THEN FactorTerm(f, k)
      ELSE [c |-> "Sub", arg |-> FactorTerm(f, k), subs |-> subs]
 
 Instances(p, k) ==
-  LET asgs == PlateAsgs(Pick(PlateNames, p.fs[k].ps \cap ElimPlates(p)))
+  LET asgs == PlateAsgs(p, Pick(PlateNames, p.fs[k].ps \cap ElimPlates(p)))
   IN [j \in 1..Len(asgs) |-> Instance(p, k, asgs[j])]
 
 RECURSIVE Flatten(_)
@@ -119,7 +126,7 @@ ProdTerm(ts) ==
 
 \* all copies of an eliminated variable (only those that occur: v must be in some factor)
 Copies(p, v) ==
-  LET asgs == PlateAsgs(Pick(PlateNames, Ord(p, v)))
+  LET asgs == PlateAsgs(p, Pick(PlateNames, Ord(p, v)))
   IN [j \in 1..Len(asgs) |-> <<CopyName(p, v, asgs[j]), BintD(VarSize)>>]
 
 Mentioned(p) == UNION {p.fs[k].vs \cup p.fs[k].ps : k \in 1..Len(p.fs)}
@@ -162,7 +169,16 @@ Code(f) ==
   IN go(1)
 
 Problems ==
-  {p \in [fs : UNION {[1..n -> FactorShapes] : n \in 1..MaxFactors}, elim : SUBSET Range(AllNames)] :
+  {p \in [fs : UNION {[1..n -> FactorShapes] : n \in 1..MaxFactors}, elim : SUBSET Range(AllNames),
+           sc : [Range(PlateNames) -> Scales]] :
+     /\ \A pl \in Range(PlateNames) : (pl \notin p.elim \/ pl \notin Mentioned(p)) => p.sc[pl] = 1
+     \* keep the brute-force oracle small: at most MaxCopies copies of eliminated variables
+     /\ (\E pl \in Range(PlateNames) : p.sc[pl] # 1) =>
+          SeqSum([j \in 1..Len(VarNames) |->
+                    IF VarNames[j] \in p.elim /\ VarNames[j] \in Mentioned(p)
+                    THEN SeqProd([q \in 1..Len(PlateNames) |->
+                                    IF PlateNames[q] \in Ord(p, VarNames[j]) THEN PlateSize * p.sc[PlateNames[q]] ELSE 1])
+                    ELSE 0]) <= 6
      /\ \A k \in 1..(Len(p.fs) - 1) : Code(p.fs[k]) <= Code(p.fs[k + 1])
      /\ p.elim \subseteq Mentioned(p)
      /\ p.elim # {}}
@@ -179,7 +195,7 @@ Emit ==
   IN TabDefined(tb) =>
      PrintT(ToJson([tag |-> Tag, plus |-> Plus, times |-> Times,
                     factors |-> [k \in 1..Len(g.fs) |-> FactorTerm(g.fs[k], k)],
-                    elim |-> g.elim, plates |-> Range(PlateNames),
+                    elim |-> g.elim, plates |-> Range(PlateNames), scales |-> g.sc,
                     comparable |-> Comparable(g),
                     splits |-> {E1 \in SUBSET g.elim : ValidSplit(g, E1)},
                     exp |-> [ins |-> u.ti, out |-> u.to, pts |-> PtsOf(u.ti), tab |-> tb,
